@@ -20,6 +20,8 @@ DESIGN = dict(
     SharedInProgress=False, # object.go validateSchemaCompatibility keeps no state across calls
     StaleMemo=False,        # units.go parse keeps no memo of the last text
     SharedError=False,      # property.go builds a new ConstraintError for every use of a disabled property
+    SortInPlace=False,      # object.go builds the required_if_not message from the list as declared
+    ConvertInPlace=False,   # any.go converts the items of a slice into a new []any
     NoStepMutex=False,      # step.go 200-223 holds initializerMutex
     EnumEarlyReturn=False,  # enum.go: repaired (return nil -> continue)
 )
@@ -35,6 +37,7 @@ CONCRETE = {
     ("units0", "rebuilt"): ["int_chars", "int_pct", "float_pct", "int_custom0"],
     ("objmap", "fresh"): ["objmap"], ("objmap", "rebuilt"): ["objmap", "plugin_input"],
     ("objstruct", "fresh"): ["objstruct"], ("objstruct", "rebuilt"): ["objstruct"],
+    ("anylist", "fresh"): ["any_top", "any_prop"], ("anylist", "rebuilt"): ["any_top", "any_prop"],
     ("disabled", "fresh"): ["disabled"], ("disabled", "rebuilt"): ["disabled"],
     ("chain", "fresh"): ["chain"], ("chain", "rebuilt"): ["chain"],
     ("compat2", "fresh"): ["compat2"], ("compat2", "rebuilt"): ["compat2"],
@@ -57,7 +60,8 @@ def arg_class(tok):
     """class of an argument in a signature (as argClass in harness/cmd/instance/main.go)"""
     if tok.startswith("lim_"):
         return "limits_given"
-    return {"nrand": "limits_left_out", "str_over": "out_of_range", "list_over": "out_of_range"}.get(tok, tok)
+    return {"nrand": "limits_left_out", "str_over": "out_of_range", "list_over": "out_of_range",
+            "list_mixed": "list_items", "list_bad": "list_items", "map_list": "list_items"}.get(tok, tok)
 
 
 def call_of(e):
@@ -253,6 +257,8 @@ def validate_trace(ctx, trace, tag, concurrent=False):
                 cls = arg_class(line["tok"])
                 if line["kind"] == "objnest":
                     cls = "limits_given" if line["tok"].startswith("lim_") else "limits_left_out"
+                if line["kind"] == "objdep" and div in ("defaults_changed", "describe_changed"):
+                    cls = "any_argument"
                 if line["kind"] in ("objmap", "objstruct") and line["op"] == "unser" and line["tok"] != "bad":
                     m = line["m"]
                     cls = "default_filling" if (m["n"] < 0 or (line["kind"] == "objstruct" and m["sa"] < 0 and m["sb"] < 0)) else "complete"
